@@ -797,3 +797,71 @@ def _gate_here_or_in_callers(self, rule, body_path, fn_path, sink, guard, descr)
 
 
 Run.gate_here_or_in_callers = _gate_here_or_in_callers
+
+
+def _forall_compare(self, rule, fn_body, elem_src, other_src_parent, sink, descr, relation="Eq"):
+    """`sink` in fn_body is reachable only if every element satisfies `elem <relation> other`.
+    Recognises (A) a loop whose body compares and leaves on mismatch (K4r) and (B) `iter().any(|e| e != other)` /
+    `iter().all(|e| e == other)` whose verdict cuts the sink.  elem_src(body) / other_src_parent(body) give seed locals;
+    in form (B) `other` must be captured by the closure from a value derived from other_src_parent in the parent."""
+    body = fn_body
+    prep(body)
+    g = cfg_of(body)
+    F = self.F
+    # (A) comparison in the function body itself
+    gd = CmpGuard(lambda b: Taint(b, through="all").closure(elem_src(b)), lambda b: Taint(b, through="all").closure(other_src_parent(b)), relation, descr, close=False)
+    n, acc, rej = gd.edges(body)
+    if acc and rej:
+        return self.gate_reject(rule, body, sink, [gd], descr=descr + " (loop form)")
+    # (B) any/all with a comparing closure
+    neg = REL_NEG[relation]
+    for blk in body.blocks:
+        t = blk["term"]
+        if t["k"] != "call" or blk["cleanup"]:
+            continue
+        kind = "any" if (t["ngen"] or "").endswith("iterator::Iterator::any") else "all" if (t["ngen"] or "").endswith("iterator::Iterator::all") else None
+        if not kind:
+            continue
+        cl = None
+        for arg in t["args"][1:]:
+            ty = body.locals.get(str(op_local(arg)), "")
+            for c in F.item(F.root_of(body).path):
+                if c.kind == "closure" and (":%d:" % c.lines[0]) in ty:
+                    cl = c
+        if cl is None:
+            continue
+        prep(cl)
+        cs = compare_sites(cl)
+        elem = Taint(cl, through="all").closure(elem_src(cl))
+        hit = None
+        for c in cs:
+            la, lb = op_local(c["a"]), op_local(c["b"])
+            if (la in elem) != (lb in elem) and 0 in Taint(cl).closure({c["d"]}):
+                hit = c
+        if hit is None:
+            continue
+        # the captured other side derives from other_src_parent in the parent
+        cap_ok = False
+        src = Taint(body, through="all").closure(other_src_parent(body))
+        for b2 in body.blocks:
+            for s in b2["stmts"]:
+                if s["rv"]["k"] == "agg" and s["rv"]["ak"] == "closure" and s["rv"]["adt"] == cl.path and any(op_local(o) in src for o in s["rv"]["ops"]):
+                    cap_ok = True
+        verdict_accepts = (kind == "any" and hit["op"] == neg) or (kind == "all" and hit["op"] == relation)
+        if not (cap_ok and verdict_accepts):
+            continue
+        tr = Tracker(body)
+        tr.seed_bool(t["d"][0], kind == "all")
+        tr.run()
+        sinks = set(sink.blocks(body))
+        ok = bool(tr.accept) and not (sinks & g.reach((0,), cut=tr.accept))
+        if not ok:
+            self.viol(rule, "forall-ungated:%s" % sink.descr(), "`%s` reachable in %s although some element fails `%s`" % (sink.descr(), body.path, descr), body, t["l"])
+        self.inst(rule, "K4 gate (Iterator::%s form)" % kind, descr, 1, ok)
+        return ok
+    self.viol(rule, "guard-missing:%s" % descr, "no per-element comparison `%s` found in %s (neither a loop nor any()/all())" % (descr, body.path), body, body.lines[0])
+    self.inst(rule, "K4r reject-edge", descr, 0, False)
+    return False
+
+
+Run.forall_compare = _forall_compare
